@@ -22,6 +22,7 @@ type seed struct {
 }
 
 var seeds = []seed{
+	{"Roaring32AsRoaring64 stores an empty argument as a bucket", "F3.64", "roaring64/roaring64.go", "\tif bm32.IsEmpty() {\n\t\t// an empty 32-bit bitmap is no bucket at all\n\t\treturn rb\n\t}\n", "", "roaring32AsRoaring64|parameter bm32"},
 	{"a container table is overlaid on byte memory", "UNS1", "serialization_littleendian.go", "// FrozenView creates a static view of a serialized bitmap stored in buf.\n", "func byteSliceAsContainerTable(slice []byte) []container {\n\treturn unsafe.Slice((*container)(unsafe.Pointer(unsafe.SliceData(slice))), len(slice)/16)\n}\n\n// FrozenView creates a static view of a serialized bitmap stored in buf.\n", "byteSliceAsContainerTable"},
 	{"roaring64.ParOr feeds its workers from the coordinating goroutine", "P6", "roaring64/parallel64.go", "\tgo func() {\n\t\tfor i := int64(0); i < chunkCount; i++ {", "\tfunc() {\n\t\tfor i := int64(0); i < chunkCount; i++ {", "roaring64.ParOr|feeding loop"},
 	{"arrayContainer.addOffset returns typed nil halves", "F6", "arraycontainer.go", "\t// Ensure proper nil interface.\n\tif low == nil {\n\t\treturn nil, high\n\t}\n\tif high == nil {\n\t\treturn low, nil\n\t}\n\n\treturn low, high\n", "\treturn low, high\n", "addOffset"},
